@@ -8,6 +8,7 @@ import (
 	"fmt"
 	"os"
 	"strconv"
+	"time"
 
 	"github.com/alibaba/sentinel-golang/core/hotspot"
 
@@ -78,6 +79,9 @@ func genCase(r *rng.R, id int) kit.Case {
 			{Kind: "exit", K: 0}, {Kind: "exit", K: 1}, {Kind: "exit", K: 2},
 			{Kind: "enter", Req: q(5)}, {Kind: "enter", Req: q(5)}, {Kind: "enter", Req: q(5)}}
 		return c
+	}
+	if id%10 == 9 {
+		return genPositions(r, id)
 	}
 	nvals := 1 + r.Intn(4)
 	vals := pickVals(r, nvals)
@@ -154,6 +158,74 @@ func genCase(r *rng.R, id int) kit.Case {
 		p := r.Perm(len(live))
 		for _, j := range p {
 			c.Ops = append(c.Ops, kit.Op{Kind: "exit", K: live[j]})
+		}
+	}
+	return c
+}
+
+// genPositions: one or two resources, each guarded by two or three concurrency rules bound to
+// DIFFERENT argument positions (0, 1, -1 with three arguments, or a ParamKey), small thresholds;
+// entries whose arguments at those positions differ, interleaved with entries that carry NO
+// arguments at all (they must occupy nothing, whatever a recycled context held before) and with
+// entries on the other resource; exits in random order and a final drain in half of the cases,
+// so that every unit taken under every rule has to come back.
+func genPositions(r *rng.R, id int) kit.Case {
+	c := kit.Case{ID: id, Adv: true}
+	vals := pickVals(r, 4)
+	nres := 1 + r.Intn(2)
+	for ri := 0; ri < nres; ri++ {
+		r0 := kit.Rule{Metric: 0, Idx: 0, Thr: r.PickI(1, 1, 2, 3)}
+		r1 := kit.Rule{Metric: 0, Idx: 1, Thr: r.PickI(1, 1, 2)}
+		rs := []kit.Rule{r0, r1}
+		switch r.Intn(4) {
+		case 0:
+			rs = append(rs, kit.Rule{Metric: 0, Idx: -1, Thr: r.PickI(1, 2)})
+		case 1:
+			rs = append(rs, kit.Rule{Metric: 0, Key: 1, Idx: -2, Thr: r.PickI(1, 2)})
+		}
+		if r.Chance(1, 3) {
+			rs[1].Spec = [][2]int64{{int64(vals[r.Intn(len(vals))]), r.PickI(0, 1, 2)}}
+		}
+		if r.Bool() {
+			rs[0], rs[1] = rs[1], rs[0]
+		}
+		c.Rules = append(c.Rules, rs)
+	}
+	nops := 30 + r.Intn(30)
+	var live []int
+	for len(c.Ops) < nops {
+		x := r.Intn(100)
+		switch {
+		case x < 35 && len(live) > 0:
+			j := r.Intn(len(live))
+			c.Ops = append(c.Ops, kit.Op{Kind: "exit", K: live[j]})
+			live = append(live[:j], live[j+1:]...)
+		case x < 50: // an entry without any argument (and without attachments)
+			live = append(live, len(c.Ops))
+			c.Ops = append(c.Ops, kit.Op{Kind: "enter", Res: r.Intn(nres), Req: &kit.Req{Batch: 1}})
+		default:
+			res := r.Intn(nres)
+			q := &kit.Req{Batch: 1}
+			nargs := int(r.PickI(1, 2, 2, 2, 3, 3))
+			for i := 0; i < nargs; i++ {
+				q.Args = append(q.Args, vals[r.Intn(len(vals))])
+			}
+			for _, rr := range c.Rules[res] {
+				if rr.Key != 0 && r.Chance(6, 10) {
+					q.Atts = append(q.Atts, [2]int{rr.Key, vals[r.Intn(len(vals))]})
+				}
+			}
+			live = append(live, len(c.Ops))
+			c.Ops = append(c.Ops, kit.Op{Kind: "enter", Res: res, Req: q})
+		}
+	}
+	if r.Bool() {
+		for _, j := range r.Perm(len(live)) {
+			c.Ops = append(c.Ops, kit.Op{Kind: "exit", K: live[j]})
+		}
+		// after the drain every value must be admissible again under every rule
+		for ri := 0; ri < nres; ri++ {
+			c.Ops = append(c.Ops, kit.Op{Kind: "enter", Res: ri, Req: &kit.Req{Args: []int{vals[0], vals[1], vals[2]}, Batch: 1}})
 		}
 	}
 	return c
@@ -331,7 +403,7 @@ func main() {
 	clk.Install()
 	root := rng.New(a.Seed)
 	rep := emit.NewReport("C06", a.Seed, a.Tier)
-	rep.Rule = "1-2 resources x 1-2 hotspot rules (concurrency with either control behaviour, thresholds 0-5, specific items incl. 0 and -1, ParamIndex 0/1/-1/-2/3, ParamKey, ParamsMaxCapacity 0(default 4000)/1-3; sometimes a QPS rule before or after), 25-64 operations: entries over 1-4 values of kinds int/int64/int32/uint8/string/bool/float64/float32/struct (plus nil, -0.0, NaN) kept alive together and exited in random order, exits of blocked / already exited entries, optional drain of all live entries. Non-trivial = at least one admission and one rejection; distinct by full input."
+	rep.Rule = "1-2 resources x 1-2 hotspot rules (concurrency with either control behaviour, thresholds 0-5, specific items incl. 0 and -1, ParamIndex 0/1/-1/-2/3, ParamKey, ParamsMaxCapacity 0(default 4000)/1-3; sometimes a QPS rule before or after), 25-64 operations: entries over 1-4 values of kinds int/int64/int32/uint8/string/bool/float64/float32/struct (plus nil, -0.0, NaN) kept alive together and exited in random order, exits of blocked / already exited entries, optional drain of all live entries. One case in ten guards each resource with 2-3 concurrency rules bound to different argument positions (0, 1, -1 / ParamKey) and interleaves entries whose arguments differ per position with entries carrying no arguments at all, then drains and re-enters. Non-trivial = at least one admission and one rejection; distinct by full input."
 	nCorr := a.Pick(a.N, 230, 6000)
 	nMon := a.Pick(a.Mon, 4000, 80000)
 	if a.Search {
@@ -348,8 +420,30 @@ func main() {
 		sh.Add(0, fmt.Sprintf("HK %d %d %d", hotspot.ConcurrencyMaxCount, hotspot.ParamsCapacityBase, hotspot.ParamsMaxCapacity))
 	}
 	dist := emit.NewDistinct()
+	var cur kit.Case
+	kit.StartWatchdog(10*time.Second, func() {
+		rep.Fail(cur.ID, "C06_decision", "entry-or-exit-does-not-return",
+			"an Entry / Exit call of this case did not return within 10 s of real time", cur)
+		if a.Only >= 0 {
+			for _, f := range rep.MonitorFailures {
+				fmt.Printf("MONITOR-FAIL clause=%s signature=%s %s\n", f.Clause, f.Signature, f.Detail)
+			}
+			os.Exit(0)
+		}
+		rep.DistinctNontrivial = dist.N()
+		if sh != nil {
+			rep.Shards = sh.Close()
+		}
+		if err := rep.Write(a.Out); err != nil {
+			fmt.Fprintln(os.Stderr, err)
+			os.Exit(2)
+		}
+		os.Exit(0)
+	})
 	runOne := func(id int, corr bool) {
 		c := genCase(root.Fork(uint64(id)), id)
+		cur = c
+		kit.Beat()
 		clk.SetMs(clk0)
 		obs, finals, corrupt := kit.Run("c06", c, clk)
 		rep.Evaluations++
